@@ -194,7 +194,10 @@ def register(M):
             # the sleeper thread has slept `dur`: the clock moved on by at least that much
             old = M.clock(ex)
             new = ex.fresh('clock', BV64)
-            ex.add(z3.And(z3.UGE(new, old + st.dur), z3.UGE(old + st.dur, old)))
+            # thread::sleep(dur) sleeps at least dur and time moves on while the thread is scheduled: strictly more than dur
+            ex.add(z3.And(z3.UGT(new, old + st.dur), z3.UGE(old + st.dur, old)))
+            if ex.env.get('time_bound_bits'):
+                ex.add(z3.And(z3.ULT(new - old, bv(1 << (ex.env['time_bound_bits'] + 1))), z3.ULT(new, bv(1 << 50))))
             ex.env['clock'] = new
             v.ch.v = st.set(fired=True)
             log(ex, 'woke_up_after_sleep', dur=st.dur)
@@ -214,6 +217,8 @@ def register(M):
         if c is None:
             c = z3.BitVec('clock0', 64)
             ex.env['clock'] = c
+            if ex.env.get('time_bound_bits'):
+                ex.add(z3.ULT(c, bv(1 << ex.env['time_bound_bits'])))
         return c
     M.clock = clock
 
@@ -221,6 +226,8 @@ def register(M):
         old = clock(ex)
         new = ex.fresh('clock', BV64)
         ex.add(z3.UGE(new, old))
+        if ex.env.get('time_bound_bits'):
+            ex.add(z3.And(z3.ULT(new - old, bv(1 << ex.env['time_bound_bits'])), z3.ULT(new, bv(1 << 50))))
         ex.env['clock'] = new
         return new
 
